@@ -239,6 +239,22 @@ Definition validate_sync (s : state) (ok : bool) (epos : Z) (setcur : bool) : st
     else set_val s 1 (Some (cur_doc s))
   else s.
 
+(* Buffer.reset(document=Document(t, p)): the next prompt.  Attributes are
+   assigned directly (no setter, no _text_changed, no task); the `running`
+   flags and the suspended coroutines of the previous prompt are not touched.
+   Document(t, p) asserts p <= len t; a negative p is a caller error that the
+   model does not follow (status 1, nothing happens). *)
+Definition reset_buf (s : state) (t : str) (p : Z) : state * Z :=
+  if (len t <? p) || (p <? 0) then (s, 1)
+  else (set_sug (set_cst (set_val (set_doc_fields s t p) 0 None) None) None, 0).
+
+(* validate_and_handle: validate(set_cursor=True); when valid: accept_handler
+   (returns keep_text), append_to_history (not observable here), and
+   reset() unless keep_text *)
+Definition validate_and_handle (s : state) (ok : bool) (epos : Z) (keep : bool) : state :=
+  let s1 := validate_sync s ok epos true in
+  if (vst s1 =? 1) && negb keep then fst (reset_buf s1 [] 0) else s1.
+
 (* --- CompletionState -------------------------------------------------- *)
 Definition cs_with_idx (cs : cstate) (i : option Z) : cstate :=
   mkcs (cs_id cs) (cs_orig cs) (cs_comps cs) i (cs_shift cs).
@@ -534,7 +550,9 @@ Inductive label :=
 | DeleteFwd (n : Z)
 | SetText (v : str)
 | Swap
-| Validate (ok : bool) (epos : Z) (setcur : bool).
+| Validate (ok : bool) (epos : Z) (setcur : bool)
+| Reset (t : str) (p : Z)
+| ValidateAndHandle (ok : bool) (epos : Z) (keep : bool).
 
 Definition step (s : state) (l : label) : state * Z :=
   match l with
@@ -556,6 +574,8 @@ Definition step (s : state) (l : label) : state * Z :=
   | SetText v => (set_text s v, 0)
   | Swap => swap_chars s
   | Validate ok epos sc => (validate_sync s ok epos sc, 0)
+  | Reset t p => reset_buf s t p
+  | ValidateAndHandle ok epos keep => (validate_and_handle s ok epos keep, 0)
   end.
 
 Definition apply (s : state) (l : label) : state := fst (step s l).
@@ -590,6 +610,9 @@ Definition dec_label (x : sx) : option label :=
   | L [A 17] => Some Swap
   | L [A 18; ok; A epos; sc] =>
       match as_bool ok, as_bool sc with Some ok, Some sc => Some (Validate ok epos sc) | _, _ => None end
+  | L [A 20; t; A p] => match as_str t with Some t => Some (Reset t p) | None => None end
+  | L [A 21; ok; A epos; kp] =>
+      match as_bool ok, as_bool kp with Some ok, Some kp => Some (ValidateAndHandle ok epos kp) | _, _ => None end
   | _ => None
   end.
 
